@@ -183,6 +183,13 @@ func (env *Env) ident(name string) Value {
 			}
 		}
 	}
+	// a parameter, captured variable or local that was renamed since the contracts were written
+	// (names.go): the variable now standing in its place
+	for _, now := range renamedTo[name] {
+		if v, ok := env.vars[now]; ok {
+			return v
+		}
+	}
 	env.fail("unknown identifier %q", name)
 	return Value{}
 }
